@@ -15,3 +15,12 @@ func VSentinel() uint64 { return sentinel() }
 
 // VWriteSentinel writes the sentinel line exactly as Parent does.
 func VWriteSentinel(w io.Writer) { writeSentinel(w) }
+
+// VRunChild runs the monitor side (Child) of this process: it reads the crash
+// text from stdin exactly as the real sidecar does; record receives every
+// counter it would increment.  Never returns.
+func VRunChild(record func(name string)) {
+	incrementCounter = record
+	childExitHook = func() {}
+	Child()
+}
